@@ -12,7 +12,10 @@ use crate::key_storage::KeyStorageErrorKind;
 use crate::key_storage::KeyStorageResult;
 
 pub(crate) fn expand_secret_jwk(jwk: &Jwk) -> KeyStorageResult<SecretKey> {
-  let params: &JwkParamsOkp = jwk.try_okp_params().unwrap();
+  // The key may be of another family than Ed25519 (e.g. a BBS+ key of the same store addressed through `sign`).
+  let params: &JwkParamsOkp = jwk
+    .try_okp_params()
+    .map_err(|err| KeyStorageError::new(KeyStorageErrorKind::UnsupportedKeyType).with_source(err))?;
 
   if params
     .try_ed_curve()
